@@ -1428,6 +1428,15 @@ func (w *envelopingWriter) writeBytes(data []byte) (int, error) {
 
 func (w *envelopingWriter) handleEnvelopeWritten() error {
 	w.writingEnvelope = false
+	if w.rw.op.serverEnveloper == nil {
+		// The server protocol has no envelopes: the body was a single message
+		// whose envelope was synthesized from the declared content-length, and
+		// the handler is writing more than it declared.
+		err := fmt.Errorf("handler wrote more than the declared content-length of %d bytes", w.rw.contentLen)
+		w.rw.reportError(err)
+		w.err = err
+		return err
+	}
 	env, err := w.rw.op.serverEnveloper.decodeEnvelope(w.env)
 	if err != nil {
 		err = malformedRequestError(err)
